@@ -1,0 +1,91 @@
+//go:build verif
+
+// Machine-checked contracts for package visitor (comment-only; see /verif/DESIGN.md).
+// visitor.Visit itself (reflection-driven, one 240-line loop) is outside the verifier's reach and is
+// covered by the bounded stand-in VisitorWalk only; the functions that choose and wrap callbacks are here.
+
+package visitor
+
+// ---- which callback a visitor has for a node kind (C14: kind-specific, generic and enter/leave-map forms) ----
+// priority: KindFuncMap[kind].{Kind | Enter, Leave}  >  generic Enter / Leave  >  EnterKindMap / LeaveKindMap[kind]
+//@ func GetVisitFn
+//@   props C14
+//@   assigns nothing
+//@   nopanic
+//@   ensures visitorOpts == nil ==> result == nil
+//@   ensures visitorOpts != nil && has(visitorOpts.KindFuncMap, kind) && isLeaving ==> result == visitorOpts.KindFuncMap[kind].Leave
+//@   ensures visitorOpts != nil && has(visitorOpts.KindFuncMap, kind) && !isLeaving && visitorOpts.KindFuncMap[kind].Kind != nil ==> result == visitorOpts.KindFuncMap[kind].Kind
+//@   ensures visitorOpts != nil && has(visitorOpts.KindFuncMap, kind) && !isLeaving && visitorOpts.KindFuncMap[kind].Kind == nil ==> result == visitorOpts.KindFuncMap[kind].Enter
+//@   ensures visitorOpts != nil && !has(visitorOpts.KindFuncMap, kind) && isLeaving && visitorOpts.Leave != nil ==> result == visitorOpts.Leave
+//@   ensures visitorOpts != nil && !has(visitorOpts.KindFuncMap, kind) && isLeaving && visitorOpts.Leave == nil && has(visitorOpts.LeaveKindMap, kind) ==> result == visitorOpts.LeaveKindMap[kind]
+//@   ensures visitorOpts != nil && !has(visitorOpts.KindFuncMap, kind) && isLeaving && visitorOpts.Leave == nil && !has(visitorOpts.LeaveKindMap, kind) ==> result == nil
+//@   ensures visitorOpts != nil && !has(visitorOpts.KindFuncMap, kind) && !isLeaving && visitorOpts.Enter != nil ==> result == visitorOpts.Enter
+//@   ensures visitorOpts != nil && !has(visitorOpts.KindFuncMap, kind) && !isLeaving && visitorOpts.Enter == nil && has(visitorOpts.EnterKindMap, kind) ==> result == visitorOpts.EnterKindMap[kind]
+//@   ensures visitorOpts != nil && !has(visitorOpts.KindFuncMap, kind) && !isLeaving && visitorOpts.Enter == nil && !has(visitorOpts.EnterKindMap, kind) ==> result == nil
+
+// ---- type tracking wrapper (C14: type tracking reports at each node the types that apply there) ----
+// Enter: the tracker enters the node before the wrapped visitor sees it; the wrapped visitor's own callback
+// for the node's kind gets the same parameters, and its verdict is passed on; a node replaced by the
+// callback is left and the replacement entered.
+//@ func VisitWithTypeInfo$1
+//@   props C14
+//@   nosafety
+//@   opt invoke.Enter=pure
+//@   opt invoke.Leave=pure
+//@   opt invoke.GetKind=pure
+//@   opt callback.fn=pure
+//@   at call Enter#1: assert arg1 == node && calls("fn") == 0
+//@   at call GetVisitFn: assert arg0 == visitorOpts && arg2 == false && calls("Enter") == 1
+//@   at call fn: assert arg0 == p && calls("Enter") == 1
+//@   ensures calls("GetVisitFn") == 1 && lastresult("GetVisitFn") != nil ==> calls("fn") == 1 && result0 == lastresult("fn") && result1 == lastresult("fn", 1)
+//@   ensures calls("fn") == 0 ==> result0 == ActionNoChange && result1 == nil
+//@   ensures calls("fn") == 1 && lastresult("fn") != ActionUpdate ==> calls("Enter") == 1 && calls("Leave") == 0
+//@   ensures calls("fn") == 1 && lastresult("fn") == ActionUpdate ==> calls("Leave") == 1
+//@   ensures calls("GetVisitFn") == 1 && lastresult("GetVisitFn") == nil ==> calls("Enter") == 1 && calls("Leave") == 0
+
+// Leave: the wrapped visitor's leave callback (if it has one for the kind) runs first, and the tracker
+// leaves the node exactly once whether or not there is such a callback.
+//@ func VisitWithTypeInfo$2
+//@   props C14
+//@   nosafety
+//@   opt invoke.Leave=pure
+//@   opt invoke.GetKind=pure
+//@   opt callback.fn=pure
+//@   at call GetVisitFn: assert arg0 == visitorOpts && arg2 == true
+//@   at call fn: assert arg0 == p && calls("Leave") == 0
+//@   at call Leave: assert arg1 == node
+//@   ensures calls("GetVisitFn") == calls("Leave")
+//@   ensures calls("GetVisitFn") == 1 && lastresult("GetVisitFn") != nil ==> calls("fn") == 1 && result0 == lastresult("fn") && result1 == lastresult("fn", 1)
+//@   ensures calls("fn") == 0 ==> result0 == ActionNoChange && result1 == nil
+
+// ---- visitors run in parallel (C14: each observes the event sequence it would observe alone) ----
+// Enter: every visitor that is not inside a subtree it skipped (and has not stopped) is offered the node:
+// its own callback for the kind gets the unchanged parameters; skip starts skipping at this node, break
+// stops that visitor for good; a visitor that is skipping or stopped sees nothing.
+//@ func VisitInParallel$1
+//@   props C14
+//@   nosafety
+//@   opt invoke.GetKind=pure
+//@   opt callback.fn=pure
+//@   at call GetVisitFn: assert arg0 == visitorOpts && arg2 == false && !has(skipping, i)
+//@   at call fn: assert arg0 == p && !has(skipping, i)
+//@   loop 1 ensures heapatloop(1, has(skipping, i)) ==> calls("fn") == atloop(1, calls("fn")) && has(skipping, i) && skipping[i] == heapatloop(1, skipping[i])
+//@   loop 1 ensures calls("GetVisitFn") == atloop(1, calls("GetVisitFn")) + 1 && lastresult("GetVisitFn") != nil ==> calls("fn") == atloop(1, calls("fn")) + 1
+//@   loop 1 ensures calls("fn") == atloop(1, calls("fn")) + 1 && lastresult("fn") == ActionSkip ==> has(skipping, i) && skipping[i] == p.Node
+//@   loop 1 ensures calls("fn") == atloop(1, calls("fn")) + 1 && lastresult("fn") == ActionBreak ==> has(skipping, i) && typeis(skipping[i], "string") && strval(skipping[i]) == ActionBreak
+//@   loop 1 ensures calls("fn") == atloop(1, calls("fn")) + 1 && lastresult("fn") != ActionBreak && lastresult("fn") != ActionSkip ==> !has(skipping, i)
+
+// Leave: a visitor that is not skipping gets its leave callback; the visitor that skipped exactly this
+// node resumes after it (and is not told about the leave); others that are skipping stay so.
+//@ func VisitInParallel$2
+//@   props C14
+//@   nosafety
+//@   opt invoke.GetKind=pure
+//@   opt callback.fn=pure
+//@   at call GetVisitFn: assert arg0 == visitorOpts && arg2 == true && !has(skipping, i)
+//@   at call fn: assert arg0 == p && !has(skipping, i)
+//@   loop 1 ensures heapatloop(1, has(skipping, i)) ==> calls("fn") == atloop(1, calls("fn"))
+//@   loop 1 ensures heapatloop(1, has(skipping, i)) && heapatloop(1, skipping[i]) == p.Node ==> !has(skipping, i)
+//@   loop 1 ensures heapatloop(1, has(skipping, i)) && identity(p.Node) && heapatloop(1, skipping[i]) != p.Node ==> has(skipping, i) && skipping[i] == heapatloop(1, skipping[i])
+//@   loop 1 ensures calls("GetVisitFn") == atloop(1, calls("GetVisitFn")) + 1 && lastresult("GetVisitFn") != nil ==> calls("fn") == atloop(1, calls("fn")) + 1
+//@   loop 1 ensures calls("fn") == atloop(1, calls("fn")) + 1 && lastresult("fn") == ActionBreak ==> has(skipping, i) && typeis(skipping[i], "string") && strval(skipping[i]) == ActionBreak
